@@ -268,7 +268,8 @@ class SimClock:
 class World:
     """Installs the seams for one run and restores them afterwards."""
 
-    def __init__(self, clock: bool = True):
+    def __init__(self, clock: bool = True, rng_init: int = 0xC0FFEE):
+        self.rng_init = rng_init
         self.rng = RngSeam()
         self.clock = SimClock() if clock else None
         self._patched = []
@@ -276,6 +277,9 @@ class World:
 
     def __enter__(self):
         self.rng.install()
+        # the simulator owns the initial state of the process-global generator (a forked worker would otherwise carry
+        # whatever OS-entropy state numpy gave the parent at import)
+        np.random.seed(self.rng_init % (2 ** 32))
         if self.clock is not None:
             import importlib
             for modname in ("molgri.molecules.transitions", "molgri.space.rotobj", "molgri.wrappers"):
@@ -533,6 +537,9 @@ def run_seeds(check: Check, tier: str, seeds: list, workers: int, wall: float | 
     global _CHECK
     _CHECK = check
     check.preload()
+    if hasattr(check, "prepare_seeds"):
+        # batch-level preparation in the parent (e.g. cold reference values), inherited by the forked workers
+        check.prepare_seeds(tier, seeds, workers)
     bud = check.budget(tier)
     chunk = chunk or bud.get("chunk", 1)
     tasks = [(tier, c, want_fps) for c in _chunks(seeds, chunk)]
@@ -607,6 +614,7 @@ def confirm_replay_fresh(prop: str, path: str, oracle: str, timeout: float = 900
 
 def run_check(check: Check, tier: str, seed: int, workers: int = N_WORKERS, evidence: bool = True) -> int:
     t0 = _real_time.monotonic()
+    check.batch_seed = seed
     bud = check.budget(tier)
     known = load_known_findings()
     master = master_rng(seed, check.prop, tier)
